@@ -81,6 +81,8 @@ def check_case(ctx, case):
     mode = case.get("mode", "dag")
     names = sorted(S.variables(s))
     ctx.count("cases")
+    shared = S.build(s, mode)       # one long-lived expression object for all gradients of the case
+    firsts = []
     for pj in case["points"]:
         p = S.point_from_json(pj)
         res = R.NORMAL.evaluate(s, p)
@@ -98,7 +100,7 @@ def check_case(ctx, case):
         if refs is None:
             ctx.count("derivative_out_of_scope")
             continue
-        for gname, mk in _gradient_objects(lambda: S.build(s, mode), p):
+        for gname, mk in _gradient_objects(lambda: shared, p):
             hooks.ST.acc_on = True
             hooks.ST.acc_log = []
             g = M.call(mk, numeric=False)
@@ -128,6 +130,7 @@ def check_case(ctx, case):
                     ctx.count("derivative_enclosure_too_wide")
                     continue
                 ok = C.judge_derivative(ctx, out, d, da, dx, what, reverse=True, exact=exact_ok)
+                firsts.append((gname, p, var, out))
                 npaths = paths_to(s, var)
                 ctx.hist("paths_to_variable", min(npaths, 12))
                 # conservation over the logged contributions
@@ -149,6 +152,21 @@ def check_case(ctx, case):
                 if ctx.rng.random() < 0.01:
                     ctx.sample({"spec": S.show(s), "point": S.show_point(p), "variable": var, "paths": npaths, "mode": mode,
                                 "library": out.brief(), "true_partial_enclosure": [R.lo_float(d), R.hi_float(d)]})
+
+
+    # (end of check_case) the same gradients again on the long-lived object, in reverse order, with evaluations in between
+    import smoothmath as sm
+    for i, (gname, p, var, out) in enumerate(reversed(firsts[-12:])):
+        M.call(shared.at, sm.Point(**firsts[i % len(firsts)][1]))
+        mk = dict(_gradient_objects(lambda: shared, p))[gname]
+        g = M.call(mk, numeric=False)
+        ctx.count("revisits")
+        if g.kind != "obj":
+            ctx.violation("requery_differs", f"{gname} of {S.show(s)} at {S.show_point(p)}: first time a gradient, now {g.brief()}")
+            continue
+        again = M.call(g.value.component, var)
+        if again.numbits() != out.numbits():
+            ctx.violation("requery_differs", f"{gname} of {S.show(s)} at {S.show_point(p)}, component {var}: first {out.brief()}, after other queries on the same expression object {again.brief()}")
 
 
 def deciding(m):
